@@ -322,18 +322,20 @@ let run_file (inp : in_channel) (out : out_channel) =
               let key = bytes_of_hex q in
               let ans =
                 match init_vars m with
-                | Panic -> if int_of_n (node_count m) = 0 then "-1 N" else "PANIC"
+                | Panic -> if int_of_n (node_count m) = 0 then "-1 N S -1 -1 -1" else "PANIC"
                 | Val vs ->
                   let fuel = nat_of_int (int_of_n (node_count m) + 2) in
-                  (match mgetid fuel m vs key, mget fuel m vs key with
-                   | Ok g, Ok f ->
-                     Printf.sprintf "%d %s"
-                       (match g with None -> -1 | Some id -> int_of_nat id)
+                  let oid x = match x with None -> -1 | Some id -> int_of_nat id in
+                  (match mgetid fuel m vs key, mget fuel m vs key, msearchid fuel m vs key with
+                   | Ok g, Ok f, Ok ((l, e), r) ->
+                     Printf.sprintf "%d %s S %d %d %d"
+                       (oid g)
                        (match f with
                         | NotFound -> "N"
                         | Found None -> "F:nil"
                         | Found (Some b) -> "F:" ^ hex_of_bytes b)
-                   | _, _ -> "PANIC") in
+                       (oid l) (oid e) (oid r)
+                   | _, _, _ -> "PANIC") in
               Printf.fprintf out "q %s G %s\n" q ans)
          | "F" :: id :: rest ->
            Printf.fprintf out "C %s\n" id;
